@@ -79,6 +79,16 @@ def coq_eval_r(name, imports, body, timeout=900):
     return ok, vals, raw
 
 
+def cleanup_cases():
+    """the pid-tagged evaluation files of this process (.v/.vo/.glob ...) are scratch: remove them"""
+    import glob
+    for f in glob.glob(_os.path.join(common.CACHE, "cases", TAG + "_*")) + glob.glob(_os.path.join(common.CACHE, "cases", "." + TAG + "_*")):
+        try:
+            _os.remove(f)
+        except OSError:
+            pass
+
+
 def harness_complete(r):
     """the harness prints END <rc> after its dump: anything else is a truncated output"""
     tail = (r.stdout or "")[-40:]
@@ -879,6 +889,13 @@ def conformance(name, good):
 
 
 def correspond(ctx):
+    try:
+        return _correspond(ctx)
+    finally:
+        cleanup_cases()
+
+
+def _correspond(ctx):
     exe = build(ctx)
     quick = ctx.tier == "quick"
     mism, fails, dist = [], [], {}
@@ -965,6 +982,13 @@ def correspond(ctx):
 
 
 def replay(ctx, obj):
+    try:
+        return _replay(ctx, obj)
+    finally:
+        cleanup_cases()
+
+
+def _replay(ctx, obj):
     """re-execute every recorded failing input with its recorded parameters and re-judge it.
     rc 1: at least one reproduces; 0: all were executed and none reproduces; 2: nothing could be executed"""
     exe = build(ctx)
